@@ -54,4 +54,19 @@ PROPS = {
         'assumptions': ['derive(PartialEq, Ord, Hash) act on the storage field only (PhantomData contributes nothing) - checked by '
                         'the recorded hasher input and cmp results on the generated cases'],
     },
+    'C19': {
+        'level_text': 'Coq theorems (Properties/C19.v) about a model of boomphf 0.6.0 written from its vendored source '
+                      '(coq/Algo/BBHash.v): UNDER CONSTRUCTION - see the theorem list in Properties/C19.v.',
+        'level_note': 'proof for the model; partial for the runtime: real rayon work splitting, hardware memory ordering and '
+                      'boomphf\'s word-level rank/popcount code are NOT covered by the proof, only by the sampled runs '
+                      '(pool sizes 1,2,3,4,8,16, repeated).',
+        'technique': 'invariants over the reachable states of a small-step interleaving semantics (Coq) + induction over levels; '
+                     'differential run: finish() under thread pools vs finish_serial(), list-level lookup specification, BBHash model '
+                     'fed with recomputed wyhash slots',
+        'rule': 'graphs from structured read sets through filter_kmers/compress_kmers_with_hash (K=5,6,8,16,32,48; stranded and not; '
+                'both compression specs) and directly added random nodes, 0 to 2*10^4 nodes (quick) / 4*10^5 (thorough); each '
+                'finished under pools of 1,2,3,4,8,16 threads, repeated; non-trivial = at least 2 nodes and at least one slot '
+                'collision (a second BBHash level)',
+        'assumptions': [],
+    },
 }
